@@ -47,13 +47,13 @@ def write_xlsx(g, dirpath, rnd=None, spell_rnd=None, qualify='min'):
             wb = openpyxl.Workbook()
             wb.remove(wb.active)
             books[b] = wb
-        books[b].create_sheet(s)
+        books[b].create_sheet(G.FILE_TITLES.get(s, s))
     cells = list(g.cells.items())
     if rnd is not None:
         rnd.shuffle(cells)
     for i, c in cells:
         b, s, col, row = G.parse_id(i)
-        ws = books[b][s]
+        ws = books[b][G.FILE_TITLES.get(s, s)]
         if c['k'] == 'c':
             ws.cell(row=row, column=col).value = G.cell_python_value(c['v'])
             if c['v']['k'] == 't':
